@@ -168,6 +168,9 @@ def build(run):
                             covers=["three hyphens become a dash reachable", "token with hyphens and other characters reachable"],
                             claim="Some(dash) only for tokens made of hyphens alone (>= 2), and the dash is U+2014 or U+2015")], timeout=900)
 
+    crate_g, lemmas_g = mms_loss_lemma(run)
+    run.kani(crate_g, lemmas_g, timeout=900)
+
     # ---- K-C01-a: merge_prime_text ----------------------------------------------------------------------------------------------
     mp = cm.find("fn merge_prime_text")
     run.uses(mp)
@@ -201,3 +204,111 @@ def build(run):
     run.kani(crate_d, [dict(id="D-C01-e.2.merge_dots", harness="merge_dots_keeps_everything_else", api=api_dots, role=lambda v, o: "dots-merge-deletes-a-token",
                             covers=["one ellipsis formed reachable", "nothing merged in a row of four or more reachable"],
                             claim="only three consecutive <mo>.</mo> become one ellipsis; every other child and text is untouched, in order")], timeout=900)
+
+
+# ======================================================================================================================
+# D-C01-g: convert_to_mmultiscripts (a script with an empty base takes a neighbour as its base) loses no sibling
+MMS_SHIM = r"""
+macro_rules! debug { ($($t:tt)*) => {}; }
+macro_rules! vec { () => { Vec::new() }; ($($x:expr),+ $(,)?) => {{ let mut v = Vec::new(); $( v.push($x); )+ v }}; }
+pub struct OpInfo;
+impl OpInfo { fn is_right_fence(&self) -> bool { false } fn is_left_fence(&self) -> bool { false } }
+pub struct CanonicalizeContext;
+impl CanonicalizeContext {
+    fn find_operator(_c: Option<()>, _e: Element, _a: Option<Element>, _b: Option<Element>, _d: Option<Element>) -> OpInfo { OpInfo }
+    CTX_FNS
+}
+const INTENT_ATTR: &str = "intent";
+const CHANGED_ATTR: &str = "data-changed";
+const ADDED_ATTR_VALUE: &str = "added";
+const MAYBE_CHEMISTRY: &str = "data-maybe-chemistry";
+fn likely_chem_element(_e: Element) -> isize { -1 }
+fn likely_adorned_chem_formula(_e: Element) -> isize { -1 }
+fn reachable(x: Element, v: &Vec<ChildOfElement>) -> bool {
+    let mut cur = x.id; let mut k = 0;
+    while k < 5 {
+        let mut j = 0; while j < v.len() { if as_element(v[j]).id == cur { return true; } j += 1; }
+        let p = unsafe { dom::PARENT[cur as usize] };
+        if p == 255 { return false; }
+        cur = p; k += 1;
+    }
+    false
+}
+fn leaf(kind: u8) -> Element<'static> { let e = dom::new_node(kind); dom::set_leaf(e, 4); e }
+fn script_with(base: Element<'static>, s: Element<'static>) -> Element<'static> { let e = dom::new_node(8); e.append_child_id(base.id); e.append_child_id(s.id); e }
+fn empty_base_script(s: Element<'static>) -> Element<'static> { script_with(dom::new_node(5), s) }          // <msub><mrow/> s </msub>
+fn run_shape(shape: usize) {
+    let row = dom::new_node(5);
+    let two = leaf(6); let three = leaf(6); let x = leaf(0); let a = leaf(0); let b = leaf(0);
+    let mut tracked = [two, x, x, x, x];
+    let i;
+    match shape {
+        0 => {   // ^2 (a b)_3 X : a script whose base is an mrow sits between the empty-base script and the token to its right
+            let ab = dom::new_node(5); ab.append_child_id(a.id); ab.append_child_id(b.id);
+            row.append_child_id(empty_base_script(two).id); row.append_child_id(script_with(ab, three).id); row.append_child_id(x.id);
+            tracked = [two, three, a, b, x]; i = 0;
+        },
+        1 => {   // ^2 a_3 X
+            row.append_child_id(empty_base_script(two).id); row.append_child_id(script_with(a, three).id); row.append_child_id(x.id);
+            tracked = [two, three, a, x, x]; i = 0;
+        },
+        2 => {   // ^2 _3 X : two prescripts
+            row.append_child_id(empty_base_script(two).id); row.append_child_id(empty_base_script(three).id); row.append_child_id(x.id);
+            tracked = [two, three, x, x, x]; i = 0;
+        },
+        3 => {   // X ^2 : postscript
+            row.append_child_id(x.id); row.append_child_id(empty_base_script(two).id);
+            tracked = [two, x, x, x, x]; i = 1;
+        },
+        _ => {   // ^2 (a b) X : an mrow between the script and the token
+            let ab = dom::new_node(5); ab.append_child_id(a.id); ab.append_child_id(b.id);
+            row.append_child_id(empty_base_script(two).id); row.append_child_id(ab.id); row.append_child_id(x.id);
+            tracked = [two, a, b, x, x]; i = 0;
+        },
+    }
+    let mut children = row.children();
+    let n0 = children.len();
+    let next = convert_to_mmultiscripts(&mut children, i);
+    cover!(next >= 1 && n0 >= 2, "the conversion returns reachable");
+    assert!(next >= 1 && next <= children.len(), "the index to continue from is outside the child list");
+    let mut k = 0;
+    while k < 5 { assert!(reachable(tracked[k], &children), "a visible token of a sibling is no longer in the row after the conversion: content lost"); k += 1; }
+}
+HARNESS(mms_shape_0, 16, [std::string::ToString::to_string => to_string_stub, str::trim => stubs::trim]) { run_shape(0) }
+HARNESS(mms_shape_1, 16, [std::string::ToString::to_string => to_string_stub, str::trim => stubs::trim]) { run_shape(1) }
+HARNESS(mms_shape_2, 16, [std::string::ToString::to_string => to_string_stub, str::trim => stubs::trim]) { run_shape(2) }
+HARNESS(mms_shape_3, 16, [std::string::ToString::to_string => to_string_stub, str::trim => stubs::trim]) { run_shape(3) }
+HARNESS(mms_shape_4, 16, [std::string::ToString::to_string => to_string_stub, str::trim => stubs::trim]) { run_shape(4) }
+"""
+
+
+def api_mms_loss(vals=None, out=None):
+    import re
+    res = mcprobe([("mathml", "<math><mrow><msup><mrow/><mn>2</mn></msup><msub><mrow><mi>a</mi><mi>b</mi></mrow><mn>3</mn></msub><mi>X</mi></mrow></math>")])
+    leaves = "".join(re.findall(r">([^<>\s]+)</m[ion]>", res[0][1])).replace("&#x2062;", "") if res[0][0] == "OK" else ""
+    return sorted(leaves) != sorted("2ab3X"), {"script": "set_mathml(^2 (ab)_3 X): all five tokens must be in the canonical MathML", "leaves": leaves, "result": res[0]}
+
+
+def mms_loss_lemma(run):
+    c = slicer.Source.get("src/canonicalize.rs")
+    cm = c.find("fn clean_mathml")
+    fns = [cm.find("fn convert_to_mmultiscripts"), cm.find("fn add_to_scripts"), cm.find("fn add_pair"), cm.find("fn choose_base_of_mmultiscripts")]
+    imp = c.find("impl CanonicalizeContext")
+    ctx = [imp.find("fn is_empty_element"), imp.find("fn create_empty_element")]
+    hack = c.find("const MHCHEM_MMULTISCRIPTS_HACK")
+    run.uses(*fns, *ctx, hack)
+    from checks import C09
+    attr_shim = C09.LIFT_SHIM[:C09.LIFT_SHIM.index("const CHANGED_ATTR")]
+    body0 = prelude.STR_STUBS + prelude.PHF_MOCK + prelude.MINIDOM + prelude.TOSTRING_STUB + attr_shim + hack.text + "\n" + \
+        MMS_SHIM.replace("CTX_FNS", "\n".join(f.text for f in ctx)) + "\n".join(f.text for f in fns)
+    helpers = slicer.called_helpers(c, "\n".join(f.text for f in fns), body0)
+    run.uses(*helpers)
+    crate = kani_run.Crate("c01mms", body0 + "\n" + "\n".join(h.text for h in helpers), native_deps=prelude.PHF_NATIVE_DEP)
+    run.bound("D-C01-g", "convert_to_mmultiscripts, add_to_scripts, add_pair, choose_base_of_mmultiscripts (with its nested helpers), is_empty_element, create_empty_element, add_attrs verbatim on the model DOM; "
+              "five row shapes (one harness each): ^2 (ab)_3 X, ^2 a_3 X, ^2 _3 X, X ^2, ^2 (ab) X")
+    run.assume("model DOM (MINIDOM); find_operator never reports a fence (no grouped base), likely_chem_element / likely_adorned_chem_formula return -1 (not chemistry), debug! empty, vec! builds the model vector; str::trim stubbed by a byte loop over the Unicode White_Space set")
+    shapes = ["^2 (ab)_3 X", "^2 a_3 X", "^2 _3 X", "X ^2", "^2 (ab) X"]
+    return crate, [dict(id="D-C01-g.convert_to_mmultiscripts_loses_no_sibling[%s]" % sh, harness="mms_shape_%d" % k, api=lambda v, o: api_mms_loss(),
+                        role=lambda v, o: "sibling-between-script-and-base-dropped",
+                        covers=["the conversion returns reachable"],
+                        claim="every visible token of the row is still under one of the row's children after the conversion") for k, sh in enumerate(shapes)]
